@@ -104,6 +104,13 @@ def _execute_inner(setup, schedule, rng, record, TrajectoryStore):
         def body(simthread):
             stores = []
             for act in script:
+                if act == 'open_missing':
+                    # a constructor call rejected by argument checking must not change ownership
+                    try:
+                        TrajectoryStore.open(base_file=setup['junk'] + '.does-not-exist')
+                    except Exception as e:  # noqa: BLE001
+                        sched.log('open_missing', name, outcome=type(e).__name__)
+                    continue
                 if act == 'open_bad':
                     # opening a file that exists but is not a store fails; it must not change
                     # who owns the stores
@@ -136,7 +143,9 @@ def _execute_inner(setup, schedule, rng, record, TrajectoryStore):
         return body
 
     for name, script in zip(names, setup['threads']):
-        sched.add(name, make_body(name, script))
+        t = sched.add(name, make_body(name, script))
+        if setup.get('same_names'):
+            t.thread.name = 'aeic-worker'
     violation = None
     try:
         sched.run()
@@ -224,8 +233,10 @@ def draw_setup(rng: random.Random, tier: str) -> dict:
             r2 = rng.random()
             if r2 < 0.3:
                 sc.append('close')
-            elif r2 < 0.45:
+            elif r2 < 0.42:
                 sc.append('open_bad')
+            elif r2 < 0.54:
+                sc.append('open_missing')
         scripts.append(sc)
     r = rng.random()
     if r < 0.35:
@@ -239,7 +250,9 @@ def draw_setup(rng: random.Random, tier: str) -> dict:
         rng.shuffle(order)
         policy = {'kind': 'sequential', 'order': order}
     opcode = (tier == 'thorough' and rng.random() < 0.4) or (tier == 'quick' and rng.random() < 0.1)
-    return {'op': 'setup', 'threads': scripts, 'policy': policy, 'opcode': bool(opcode)}
+    # distinct threads may carry the same name: identity is the thread, not its label
+    return {'op': 'setup', 'threads': scripts, 'policy': policy, 'opcode': bool(opcode),
+            'same_names': rng.random() < 0.25}
 
 
 def _result(setup, record, trace, violation, probes, inside, run_index, seed, hashseed):
